@@ -629,6 +629,107 @@ fn sort_plain_work(thorough: bool) -> (Vec<SortWork>, J) {
 }
 
 // ---------------------------------------------------------------------------------------------
+// A7. plaintext Sort with keys wider than a machine word
+// ---------------------------------------------------------------------------------------------
+
+/// key rows as explicit bit vectors (most significant bit first, as Sort compares them)
+fn wide_rows(b: usize) -> Vec<Vec<u128>> {
+    let mut rows: Vec<Vec<u128>> = vec![vec![0; b], vec![1; b]];
+    // a single one / a single zero at every "interesting" position: word boundaries of a 64-bit packing and the ends
+    let mut pos: Vec<usize> = vec![0, 1, b / 2, b - 2, b - 1];
+    for w in [32usize, 64, 128] {
+        for d in [w - 1, w] {
+            if d < b {
+                pos.push(d);
+            }
+            if b >= d + 1 {
+                pos.push(b - 1 - d.min(b - 1)); // the same distance from the other end
+            }
+        }
+    }
+    pos.sort_unstable();
+    pos.dedup();
+    for p in pos {
+        let mut one = vec![0u128; b];
+        one[p] = 1;
+        rows.push(one);
+        let mut zero = vec![1u128; b];
+        zero[p] = 0;
+        rows.push(zero);
+    }
+    rows
+}
+
+fn wide_sort_case(ctx: &Context, cols: &[Col], rows: &[Vec<u128>]) -> Result<(), (String, String)> {
+    let n = rows.len();
+    let elems: Vec<Vec<u128>> = cols
+        .iter()
+        .map(|c| {
+            if c.is_key {
+                rows.iter().flat_map(|r| r.iter().copied()).collect()
+            } else {
+                let m = c.row_size();
+                let mut v = Vec::with_capacity(n * m);
+                for i in 0..n {
+                    for j in 0..m {
+                        v.push(fill(c, i, j));
+                    }
+                }
+                v
+            }
+        })
+        .collect();
+    let inputs = table_values(cols, &elems);
+    // THE ORACLE: stable sort by (bit vector, index)
+    let mut order: Vec<usize> = (0..n).collect();
+    order.sort_by(|a, b| rows[*a].cmp(&rows[*b]).then(a.cmp(b)));
+    match mpcx::eval_plain(ctx, &inputs, 1) {
+        Err(m) => Err((format!("fails:{}", stable_msg(&m)), m)),
+        Ok(out) => check_table(&out, cols, n, &elems, &order, false),
+    }
+}
+
+/// every ordered pair and (thorough) triple of rows from `wide_rows(b)`, layout 1
+fn run_wide_work(b: usize, thorough: bool) -> Out {
+    let mut o = Out::default();
+    let alphabet = wide_rows(b);
+    let cols = layout(1, b as u32);
+    for n in [2usize, 3] {
+        if n == 3 && !thorough && b != 72 {
+            continue;
+        }
+        let ctx = match build_sort_ctx(1, n, b as u32) {
+            Ok(c) => c,
+            Err(m) => {
+                o.viol(
+                    format!("C18:Sort:plain:build:{}", stable_msg(&m)),
+                    format!("cannot build the Sort graph (layout 1, n={}, b={}): {}", n, b, m),
+                    json!({"section": "sort-wide", "n": n, "b": b, "rows": J::Null}),
+                );
+                continue;
+            }
+        };
+        let a = alphabet.len();
+        for code in 0..a.pow(n as u32) {
+            let idx: Vec<usize> = (0..n).map(|k| (code / a.pow(k as u32)) % a).collect();
+            let rows: Vec<Vec<u128>> = idx.iter().map(|i| alphabet[*i].clone()).collect();
+            o.c("evaluations", 1);
+            o.c("sort_plain_cases", 1);
+            o.c("sort_plain_wide_key_cases", 1);
+            o.distinct.push(hash_str(&format!("A7/{}/{}/{:?}", n, b, idx)));
+            if let Err((kind, detail)) = wide_sort_case(&ctx, &cols, &rows) {
+                o.viol(
+                    format!("C18:Sort:plain:wide-key:{}", kind),
+                    format!("plaintext Sort with a {}-bit key, {} rows (alphabet indices {:?}): {}", b, n, idx, detail),
+                    json!({"section": "sort-wide", "n": n, "b": b, "rows": rows.iter().map(|r| r.iter().map(|x| *x as u64).collect::<Vec<u64>>()).collect::<Vec<_>>()}),
+                );
+            }
+        }
+    }
+    o
+}
+
+// ---------------------------------------------------------------------------------------------
 // B. SortByIntegerKey
 // ---------------------------------------------------------------------------------------------
 
@@ -1537,6 +1638,14 @@ pub fn run(r: &Report) -> i32 {
         o.merge(r);
     }
     walls.insert("A_plaintext_sort".into(), json!(r.elapsed() - t0));
+    // A7: keys wider than a machine word
+    let t0 = r.elapsed();
+    let wide_bs: Vec<usize> = if thorough { vec![63, 64, 65, 72, 100, 127, 128, 129, 200] } else { vec![64, 65, 72, 129] };
+    let outs: Vec<Out> = wide_bs.par_iter().map(|b| run_wide_work(*b, thorough)).collect();
+    for o in outs {
+        o.merge(r);
+    }
+    walls.insert("A7_wide_keys".into(), json!(r.elapsed() - t0));
 
     let (int_ws, bounds_b) = intkey_work(thorough);
     let t0 = r.elapsed();
@@ -1622,6 +1731,21 @@ pub fn replay(_r: &Report, rec: &J) -> i32 {
     let case = &rec["case"];
     let section = case["section"].as_str().unwrap_or("");
     let verdict: Result<(), (String, String)> = match section {
+        "sort-wide" => {
+            let n = case["n"].as_u64().unwrap_or(2) as usize;
+            let b = case["b"].as_u64().unwrap_or(65) as u32;
+            match build_sort_ctx(1, n, b) {
+                Err(m) => Err(("build".into(), m)),
+                Ok(ctx) => {
+                    let rows: Vec<Vec<u128>> = case["rows"]
+                        .as_array()
+                        .map(|a| a.iter().map(|r| u64s(r).into_iter().map(|x| x as u128).collect()).collect())
+                        .unwrap_or_default();
+                    println!("plaintext Sort with a {}-bit key, {} rows", b, n);
+                    wide_sort_case(&ctx, &layout(1, b), &rows)
+                }
+            }
+        }
         "sort-plain" => {
             let layout_id = case["layout"].as_u64().unwrap_or(1) as usize;
             let n = case["n"].as_u64().unwrap_or(1) as usize;
